@@ -35,7 +35,8 @@ def run(ctx):
         D = int(rng.integers(2, 6))
         if cid[1] % 60 == 9:
             D = min(D, 3)
-            spec = zoo.int_spec(rng, n=int(rng.choice([65537, 100001])), d=D, all_log=rng.random() < 0.4)      # a large sample
+            spec = zoo.int_spec(rng, n=int(rng.choice([65537, 140001, 300001])), d=D, all_log=rng.random() < 0.6,
+                                res=int(rng.choice([1000, 10000, 50000, 1024])))      # a large sample, mostly with a resolution that is not a power of two
         elif rng.random() < 0.75:
             spec = zoo.int_spec(rng, n=int(rng.integers(12, 60)), d=D, all_log=rng.random() < 0.4)
         else:
